@@ -5,7 +5,9 @@ From KB Require Export Model.KeySys.
 Local Open Scope N_scope.
 
 (* which engine call the resumed thread performed in this scheduler step (seen at the gate) *)
-Inductive ekind := KStart | KIter | KGet | KBatch.
+Inductive ekind := KStart | KIter | KGet | KBatch
+                 | KHold.   (* the thread's batch commit has entered the engine and is being held there: nothing
+                               has happened yet as far as the store is concerned; the sample is taken while it is held *)
 
 Record sstep := {
   st_t : tid;
@@ -30,7 +32,7 @@ Record sched_case := {
 (* ---------- small utilities ---------- *)
 
 Definition ekind_eqb (a b : ekind) : bool :=
-  match a, b with KStart, KStart | KIter, KIter | KGet, KGet | KBatch, KBatch => true | _, _ => false end.
+  match a, b with KStart, KStart | KIter, KIter | KGet, KGet | KBatch, KBatch | KHold, KHold => true | _, _ => false end.
 
 Definition env_eqb (a b : env) : bool :=
   match a, b with EnvOk, EnvOk | EnvError, EnvError | EnvConflictAbort, EnvConflictAbort => true | _, _ => false end.
@@ -89,6 +91,15 @@ Fixpoint run_steps (cidx0 : bool) (s : state) (queues : list (tid * list req)) (
   | [] => Some (s, queues)
   | st :: steps' =>
       let t := st_t st in
+      if ekind_eqb (st_kind st) KHold then
+        (* the commit is held inside the engine: the model thread still stands before its commit *)
+        let s2 := seq_all cidx0 64 s in
+        if is_commit_pc (thr s t) && env_eqb (st_env st) EnvOk
+           && (match st_resps st with [] => true | _ => false end)
+           && (prev <=? st_sample st) && (st_sample st <=? committed (rs s2))
+        then run_steps cidx0 s2 queues (st_sample st) steps'
+        else None
+      else
       let '(s1, qu, resps, _) := resume cidx0 s t (st_env st) (lookup [] t queues) in
       let s2 := seq_all cidx0 64 s1 in
       if ekind_eqb (pc_kind (thr s t)) (st_kind st)
@@ -97,6 +108,27 @@ Fixpoint run_steps (cidx0 : bool) (s : state) (queues : list (tid * list req)) (
          && (prev <=? st_sample st) && (st_sample st <=? committed (rs s2))
       then run_steps cidx0 s2 (set_assoc t qu queues) (st_sample st) steps'
       else None
+  end.
+
+(* one client, one request at a time (used by the sequential case kinds) *)
+Fixpoint run_to_response (cidx0 : bool) (fuel : nat) (s : state) (queue : list req)
+  : state * list req * list resp :=
+  match fuel with
+  | O => (s, queue, [])
+  | S f =>
+      let '(s1, qu, resps, _) := resume cidx0 s 0 EnvOk queue in
+      match resps with
+      | [] => if is_engine_pc (thr s1 0) then run_to_response cidx0 f s1 qu else (s1, qu, [])
+      | _ => (s1, qu, resps)
+      end
+  end.
+
+Fixpoint run_writes (cidx0 : bool) (s : state) (ws : list (req * resp)) : option state :=
+  match ws with
+  | [] => Some s
+  | (q, r) :: ws' =>
+      let '(s1, _, resps) := run_to_response cidx0 8 s [q] in
+      if list_eqb resp_eqb resps [r] then run_writes cidx0 s1 ws' else None
   end.
 
 Definition sched_check (c : sched_case) : bool :=
@@ -121,10 +153,11 @@ Record rrec := {
   rr_inv : nat;                 (* step during which the request was invoked *)
   rr_ret : nat;                 (* step during which its response came back *)
   rr_commit : option nat;       (* last step in which it ran a batch commit *)
+  rr_hold : option nat;         (* last step during which its commit was held inside the engine *)
   rr_injected : bool            (* the harness injected an error / conflict abort into one of its engine calls *)
 }.
 
-Record tstat := { ts_queue : list req; ts_inv : option nat; ts_commit : option nat; ts_inj : bool }.
+Record tstat := { ts_queue : list req; ts_inv : option nat; ts_commit : option nat; ts_hold : option nat; ts_inj : bool }.
 
 Fixpoint emit (t : tid) (i : nat) (ts : tstat) (resps : list resp) : tstat * list rrec :=
   match resps with
@@ -135,8 +168,8 @@ Fixpoint emit (t : tid) (i : nat) (ts : tstat) (resps : list resp) : tstat * lis
       | q :: queue' =>
           let rec_ := {| rr_t := t; rr_q := q; rr_resp := r;
                          rr_inv := match ts_inv ts with Some j => j | None => i end;
-                         rr_ret := i; rr_commit := ts_commit ts; rr_injected := ts_inj ts |} in
-          let '(ts', recs) := emit t i {| ts_queue := queue'; ts_inv := Some i; ts_commit := None; ts_inj := false |} resps' in
+                         rr_ret := i; rr_commit := ts_commit ts; rr_hold := ts_hold ts; rr_injected := ts_inj ts |} in
+          let '(ts', recs) := emit t i {| ts_queue := queue'; ts_inv := Some i; ts_commit := None; ts_hold := None; ts_inj := false |} resps' in
           (ts', rec_ :: recs)
       end
   end.
@@ -146,17 +179,18 @@ Fixpoint records (i : nat) (tss : list (tid * tstat)) (steps : list sstep) : lis
   | [] => []
   | st :: steps' =>
       let t := st_t st in
-      let ts := lookup {| ts_queue := []; ts_inv := None; ts_commit := None; ts_inj := false |} t tss in
+      let ts := lookup {| ts_queue := []; ts_inv := None; ts_commit := None; ts_hold := None; ts_inj := false |} t tss in
       let ts1 := {| ts_queue := ts_queue ts;
                     ts_inv := match ts_inv ts with Some j => Some j | None => Some i end;
                     ts_commit := match st_kind st with KBatch => Some i | _ => ts_commit ts end;
+                    ts_hold := match st_kind st with KHold => Some i | _ => ts_hold ts end;
                     ts_inj := ts_inj ts || negb (env_eqb (st_env st) EnvOk) |} in
       let '(ts2, recs) := emit t i ts1 (st_resps st) in
       recs ++ records (S i) (set_assoc t ts2 tss) steps'
   end.
 
 Definition case_records (c : sched_case) : list rrec :=
-  records 0 (map (fun tq => (fst tq, {| ts_queue := snd tq; ts_inv := None; ts_commit := None; ts_inj := false |})) (sc_progs c))
+  records 0 (map (fun tq => (fst tq, {| ts_queue := snd tq; ts_inv := None; ts_commit := None; ts_hold := None; ts_inj := false |})) (sc_progs c))
           (sc_steps c).
 
 Definition resp_succ (r : resp) : bool :=
@@ -318,12 +352,65 @@ Definition chain_part (c : sched_case) : bool :=
 Definition chain_ok (c : sched_case) : bool :=
   chain_part c && forallb (justified c (case_records c)) (case_records c).
 
-Definition c01_check := sched_check.
-Definition c01_oracle (c : sched_case) : option N :=
+Definition sched_c01_oracle (c : sched_case) : option N :=
   let recs := case_records c in
   if chain_ok c then None
   else if chain_part c && forallb (fun r => justified c recs r || f1_signature recs r) recs then Some 1
   else Some 0.
+
+(* ---------- a compaction pass racing a create over the tombstone it is about to collect ----------
+   The compactor (scanner.go:416-507, compact = true, revision R) has read key 0's index record `obs`
+   (tombstoned) and is held right before deleting it; a client create commits; the compactor resumes.
+   Its index delete is a compare-and-delete (DelCurrent): it must leave a record that changed. *)
+
+Record compact_case := {
+  cc_cidx0 : bool;
+  cc_d0 : N;
+  cc_R : N;                                   (* compaction revision *)
+  cc_init : kstate;                           (* key 0 when the compactor read it *)
+  cc_writes : list (req * resp);              (* client requests on key 0 while the compactor is held *)
+  cc_final : kstate;                          (* raw records of key 0 after the pass *)
+  cc_get : option (bytes * N);                (* follow-up probes: Get *)
+  cc_update_ok : bool;                        (* Update naming the revision Get returned succeeded *)
+  cc_create_refused : bool                    (* a further Create was refused *)
+}.
+
+Definition collectable (R : N) (vs : list (N * bytes)) (p : N * bytes) : bool :=
+  (fst p <=? R) && (existsb (fun p' => (fst p <? fst p') && (fst p' <=? R)) vs || beqb (snd p) tombstone).
+
+(* what one compaction pass at R does to a key whose index record it observed as obs *)
+Definition compact_key (R : N) (obs : option (N * bool)) (ks : kstate) : kstate :=
+  {| k_idx := match obs with
+              | Some (r, true) => if (r <=? R) && opt_eqb idx_eqb (k_idx ks) obs then None else k_idx ks
+              | _ => k_idx ks
+              end;
+     k_vers := filter (fun p => negb (collectable R (k_vers ks) p)) (k_vers ks) |}.
+
+Definition compact_check (c : compact_case) : bool :=
+  match run_writes (cc_cidx0 c) (kinit (cc_d0 c) (fun k => if k =? 0 then cc_init c else k_empty)) (cc_writes c) with
+  | None => false
+  | Some s => kstate_eqb (compact_key (cc_R c) (k_idx (cc_init c)) (kv s 0)) (cc_final c)
+  end.
+
+(* the property on the observation: an acknowledged create is the live head of the key afterwards *)
+Definition compact_ok (c : compact_case) : bool :=
+  forallb (fun qr => match qr with
+                     | (RqCreate _ v, RespCreate rev true) =>
+                         opt_eqb idx_eqb (k_idx (cc_final c)) (Some (rev, false))
+                         && opt_eqb beqb (ver_get rev (k_vers (cc_final c))) (Some v)
+                         && opt_eqb kvr_eqb (cc_get c) (Some (v, rev))
+                         && cc_update_ok c && cc_create_refused c
+                     | _ => true
+                     end) (cc_writes c).
+
+Inductive c01_case :=
+| C1Sched (c : sched_case)
+| C1Compact (c : compact_case).
+
+Definition c01_check (c : c01_case) : bool :=
+  match c with C1Sched c => sched_check c | C1Compact c => compact_check c end.
+Definition c01_oracle (c : c01_case) : option N :=
+  match c with C1Sched c => sched_c01_oracle c | C1Compact c => ok_if (compact_ok c) end.
 
 (* ---------- validity of a case (what the generator guarantees) ---------- *)
 
